@@ -71,6 +71,21 @@ private theorem nf_noise (K : Matrix (Fin m) (Fin n) ℝ) (Sa : Matrix (Fin n) (
     retrieval_noise K Sa Sy e = ((Kᵀ * Sy⁻¹ * K + Sa⁻¹)⁻¹ * Kᵀ * Sy⁻¹) *ᵥ e := by
   simp only [retrieval_noise, nf_G, nf_S] <;> oem_nf
 
+/-! ## Guard: every `inv` call of the code acts on an invertible matrix
+
+`scipy.linalg.inv` raises `LinAlgError` for a singular argument, Mathlib's `⁻¹` returns `0`.
+Under the property's hypotheses (positive definite `Sa`, `Sy`; ANY `K`) all four matrices that are
+inverted — `Sa`, `Sy`, the information matrix and (in the m-form) `K Sa Kᵀ + Sy` — have a unit
+determinant, so the error path is excluded and `⁻¹` is the genuine inverse everywhere below. -/
+
+theorem C17_inverses_genuine (K : Matrix (Fin m) (Fin n) ℝ) {Sa : Matrix (Fin n) (Fin n) ℝ}
+    {Sy : Matrix (Fin m) (Fin m) ℝ} (ha : Sa.PosDef) (hy : Sy.PosDef) :
+    IsUnit Sa.det ∧ IsUnit Sy.det ∧ IsUnit (Kᵀ * Sy⁻¹ * K + Sa⁻¹).det ∧
+    IsUnit (Sa⁻¹ + Kᵀ * Sy⁻¹ * K).det ∧ IsUnit (K * Sa * Kᵀ + Sy).det :=
+  ⟨Oem.PosDef.det_isUnit ha, Oem.PosDef.det_isUnit hy, Oem.PosDef.det_isUnit (Oem.posDef_M K ha hy),
+    add_comm (Kᵀ * Sy⁻¹ * K) Sa⁻¹ ▸ Oem.PosDef.det_isUnit (Oem.posDef_M K ha hy),
+    Oem.PosDef.det_isUnit (Oem.posDef_W K ha hy)⟩
+
 /-! ## Posterior covariance `S` -/
 
 /-- `error_covariance_matrix = (Kᵀ Sy⁻¹ K + Sa⁻¹)⁻¹` (the n-form; no hypothesis: this is the
@@ -107,7 +122,9 @@ theorem C17_S_le_Sa (K : Matrix (Fin m) (Fin n) ℝ) {Sa : Matrix (Fin n) (Fin n
 
 /-! ## Gain matrix `G` -/
 
-/-- `G = S Kᵀ Sy⁻¹` -/
+/-- `G = S Kᵀ Sy⁻¹`.  An identity between the two translated functions (the same `inv` calls
+occur on both sides, so both sides of the real code raise on the same inputs); the inverses are
+genuine under `C17_inverses_genuine`. -/
 theorem C17_gain_n_form (K : Matrix (Fin m) (Fin n) ℝ) (Sa : Matrix (Fin n) (Fin n) ℝ)
     (Sy : Matrix (Fin m) (Fin m) ℝ) :
     retrieval_gain_matrix K Sa Sy = error_covariance_matrix K Sa Sy * Kᵀ * Sy⁻¹ := by
@@ -124,7 +141,7 @@ theorem C17_gain_m_form (K : Matrix (Fin m) (Fin n) ℝ) {Sa : Matrix (Fin n) (F
 
 /-! ## Averaging kernel `A` -/
 
-/-- `A = G K` -/
+/-- `A = G K` (identity between the translated functions, no hypothesis needed) -/
 theorem C17_A_eq_GK (K : Matrix (Fin m) (Fin n) ℝ) (Sa : Matrix (Fin n) (Fin n) ℝ)
     (Sy : Matrix (Fin m) (Fin m) ℝ) :
     averaging_kernel_matrix K Sa Sy = retrieval_gain_matrix K Sa Sy * K := by
@@ -274,6 +291,6 @@ example : (1 : Matrix (Fin 2) (Fin 2) ℝ).PosDef ∧ (1 : Matrix (Fin 1) (Fin 1
     simp [Matrix.mul_apply, Fin.sum_univ_two, Matrix.diagonal, Matrix.vecMul, dotProduct,
       Matrix.transpose_apply] <;> norm_num
 
-assert_axioms C17_S_def C17_S_posdef C17_S_le_Sa C17_gain_n_form C17_gain_m_form C17_A_eq_GK
+assert_axioms C17_inverses_genuine C17_S_def C17_S_posdef C17_S_le_Sa C17_gain_n_form C17_gain_m_form C17_A_eq_GK
   C17_A_eq_one_sub C17_smoothing_linear C17_noise_linear C17_A_eigenvalues C17_A_eigenvalues_real
   C17_A_tendsto_one_noise C17_A_tendsto_zero_prior C17_zero_K
